@@ -26,6 +26,21 @@ AFTER = {   # changes first missed (by the quick tier or entirely), then caught 
  'C19-4': ('missed by quick and thorough', 'C19: HRGs with an edit history (nonterminal edge added to a right-hand side and removed again, before or after add_rule)', 'quick'),
  'C20-3': ('missed by quick and thorough', 'C20: node labels repeated in the edge label\'s type, wrong domain at any occurrence', 'quick'),
  'C20-4': ('missed by quick and thorough', 'C20: the list a FiniteDomain was built from is mutated afterwards', 'quick'),
+ # ---- round 3
+ 'C02-5': ('missed by quick and thorough', 'C02: near-critical closed-form family S(v) -> S(v) a(v) | b(v) with cycle log-weights -f 2^-k given directly in the log domain (k <= 50)', 'quick'),
+ 'C02-6': ('missed by quick, caught by thorough', 'C02: diamond injection (new start S0 -> D0 E0 F0 over the old start: siblings over a finished SCC)', 'quick'),
+ 'C06-5': ('missed by quick, caught by thorough', 'C06: where-diagonal scenario (operand carrying one PhysicalAxis in several dimensions, dense or broadcast condition)', 'quick'),
+ 'C06-6': ('missed by quick, caught by thorough', 'C06: project onto a transposed view of the tensor itself (target pattern built on the tensor\'s own axes)', 'quick'),
+ 'C07-6': ('missed by quick and thorough', 'C07: aliased operands (one object passed twice, or with a dimension-reversed view of itself) and structured scenarios where shared axes occur only nested', 'quick'),
+ 'C07-5': ('caught by quick at first; lost after the alias change shifted the generator stream', 'C07: disjoint-sum scenario (operands select different summands of a shared index while another shared index unifies)', 'quick'),
+ 'C07-4': ('caught by quick in round 2; lost after round-3 generator changes', 'C07: viterbi-ptr scenario with three output axes and a summed-out index tied to one of them', 'quick'),
+ 'C11-6': ('missed by quick, caught by thorough', 'C11: the open finding D15 is identified by structural preconditions P1-P4 instead of "any rule with two edges", so j_precompute-only failures on other rule shapes are reported', 'quick'),
+ 'C12-5': ('missed by C12 quick and thorough (C04 quick catches it)', 'C12: viterbi comparison on the unscaled spec (weights of exactly one: exact ties, zero-cost cycles), up to three start assignments', 'quick'),
+ 'C15-5': ('missed by quick and thorough', 'C15: equal sub-derivations represented by ONE FGGDerivation object that is the child of several edges', 'quick'),
+ 'C16-6': ('missed by quick and thorough', 'C16: operations that bring in two different new nodes with one id in a single add_edge / ext= call', 'quick'),
+ 'C18-5': ('missed by quick and thorough', 'C18: JSON writers asked about the Log/Viterbi grammars (weights contain -inf)', 'quick'),
+ 'C18-6': ('missed by quick and thorough', 'C18: patterned weights whose default is not the semiring zero', 'quick'),
+ 'C19-5': ('missed by quick and thorough', 'C19: grammar queried, then a rule already in it gets a nonterminal edge added/removed, then queried again', 'quick'),
  'C20-1': ('(strengthened before the first evaluation, after reading the sub-agent\'s report)', 'C20: permuted / equal / prefix copies of a domain in the equality clause', 'quick'),
 }
 for d in sorted(glob.glob(os.path.join(V, 'seeded', '*'))):
